@@ -208,18 +208,46 @@ def compare_docs(exp, real):
                     if json.dumps(eo[fld], sort_keys=True) != json.dumps(ro[fld], sort_keys=True):
                         out.append(("%s-differ" % ("request-body" if fld == "request" else "operation-" + fld),
                                     "%s %s %s: expected %s, document %s" % (m, pat, fld, json.dumps(eo[fld])[:200], json.dumps(ro[fld])[:200])))
-                er = {(k, md): (s, h) for k, md, s, h in eo["responses"]}
-                rr = {(k, md): (s, h) for k, md, s, h in ro["responses"]}
+                # a response of the document is keyed by status; its content by media type.  A declared content with a body
+                # must be there under (status, media); a declared content without a body only requires the status.  Headers
+                # belong to the status (OpenAPI cannot attach them to one media type): every header declared by some
+                # content of that status must be there (contents of one status that disagree on a header's schema are skipped)
+                er = {(k, md): s for k, md, s, h in eo["responses"] if md is not None}
+                rr = {(k, md): s for k, md, s, h in ro["responses"] if md is not None}
+                rstat = {k for k, md, s, h in ro["responses"]}
+                for k, md, s, h in eo["responses"]:
+                    if md is None and k not in rstat:
+                        out.append(("response-missing", "%s %s: response %s (no body) is declared but not in the document" % (m, pat, k)))
                 for key in er:
                     if key not in rr:
                         out.append(("response-missing", "%s %s: response %s (media %s) is declared but not in the document" % (m, pat, key[0], key[1])))
-                    elif json.dumps(er[key][0], sort_keys=True) != json.dumps(rr[key][0], sort_keys=True):
-                        out.append(("response-schema-differs", "%s %s %s: expected %s, document %s" % (m, pat, key, json.dumps(er[key][0])[:200], json.dumps(rr[key][0])[:200])))
-                    elif json.dumps(er[key][1], sort_keys=True) != json.dumps(rr[key][1], sort_keys=True):
-                        out.append(("response-headers-differ", "%s %s %s: expected headers %s, document %s" % (m, pat, key, json.dumps(er[key][1])[:160], json.dumps(rr[key][1])[:160])))
+                    elif json.dumps(er[key], sort_keys=True) != json.dumps(rr[key], sort_keys=True):
+                        out.append(("response-schema-differs", "%s %s %s: expected %s, document %s" % (m, pat, key, json.dumps(er[key])[:200], json.dumps(rr[key])[:200])))
                 for key in rr:
                     if key not in er:
                         out.append(("response-undeclared", "%s %s: response %s (media %s) is in the document but not declared" % (m, pat, key[0], key[1])))
+                eh, rh, clash = {}, {}, set()
+                for k, md, s, h in eo["responses"]:
+                    for hd in h:
+                        prev = eh.setdefault(k, {}).setdefault(hd[0], hd)
+                        if json.dumps(prev, sort_keys=True) != json.dumps(hd, sort_keys=True):
+                            clash.add((k, hd[0]))
+                for k, md, s, h in ro["responses"]:
+                    for hd in h:
+                        rh.setdefault(k, {})[hd[0]] = hd
+                for k in sorted(set(eh) | set(rh)):
+                    if k not in rstat:
+                        continue
+                    for hn in sorted(set(eh.get(k, {})) | set(rh.get(k, {}))):
+                        if (k, hn) in clash:
+                            continue
+                        a, b = eh.get(k, {}).get(hn), rh.get(k, {}).get(hn)
+                        if a is None:
+                            out.append(("response-header-undeclared", "%s %s %s: header %s is in the document but not declared" % (m, pat, k, hn)))
+                        elif b is None:
+                            out.append(("response-header-missing", "%s %s: header %s of response %s is declared but not in the document" % (m, pat, hn, k)))
+                        elif json.dumps(a, sort_keys=True) != json.dumps(list(b), sort_keys=True):
+                            out.append(("response-headers-differ", "%s %s %s: header %s expected %s, document %s" % (m, pat, k, hn, json.dumps(a)[:160], json.dumps(b)[:160])))
             if len(its) == 1:
                 for m in r["ops"]:
                     if m not in e["ops"]:
